@@ -81,6 +81,8 @@ def mk_visitor(P, cur_kinds=("Module", "Class"), tag="current"):
 
     def set_member(P_, a, k):
         ev.append(("set_member", a[0], a[1], a[2]))
+        if isinstance(a[2], SObj) and not a[2].frozen:
+            a[2].fields["_parent" if a[2].cls == "Alias" else "parent"] = a[0]      # contract of set_member (C16): the member's parent is its container
         return None
     P.opaque_hooks["_griffe.mixins:SetMembersMixin.set_member"] = set_member
     P.opaque_hooks[VS + "_get_docstring"] = lambda P_, a, k: (
